@@ -69,6 +69,15 @@ func (vs *VoteStatus) update(voteType VoteType, validatorType params.ValidatorKi
 	}
 }
 
+// clear forgets that voteType reached its quorum for validatorType.
+func (vs *VoteStatus) clear(voteType VoteType, validatorType params.ValidatorKind) {
+	if validatorType == params.KindChamber && vs.chamber != nil {
+		delete(vs.chamber, voteType)
+	} else if validatorType == params.KindHouse && vs.house != nil {
+		delete(vs.house, voteType)
+	}
+}
+
 func (vs *VoteStatus) status(voteType VoteType, validatorType params.ValidatorKind) bool {
 	if validatorType == params.KindChamber && vs.chamber != nil {
 		return vs.chamber[voteType]
@@ -607,6 +616,17 @@ func (v *Voter) processVoteMsg(ev VoteMsgEvent, status MsgReceivedStatus) (error
 	case addrDifferentVote:
 		if voteInfoData == nil || voteType == NextIndex {
 			return nil, false
+		}
+		// The double voter's weight has just been removed from the block it voted
+		// for first. A quorum recorded for that block in this round index may no
+		// longer hold, and commit() packs the votes as they are now.
+		if wrapper == v.votesMgr {
+			if vs := v.voteOver[voteInfoData.Hash]; vs != nil {
+				_, count := wrapper.getVotes(voteType, voteInfoData.Hash, validatorType)
+				if !OverThreshold(count, threshold, voteType != Certificate) {
+					vs.clear(voteType, validatorType)
+				}
+			}
 		}
 		yp := v.paramsMgr.CurrentYouParams()
 		if yp.Version < params.YouV5 {
